@@ -557,11 +557,20 @@ fn check_field_access(
       expr::E::FieldAccess(f),
       unresolved_type_parameters,
     ),
-    FieldOrMethodAccesss::Method(m) => replace_undecided_tparam_with_unknown_and_update_type(
-      cx,
-      expr::E::MethodAccess(m),
-      unresolved_type_parameters,
-    ),
+    FieldOrMethodAccesss::Method(m) => {
+      // The members of the built-in classes (Process, Str, Vec) are runtime functions without a
+      // closure representation: they can be called, but a reference to them is not a value.
+      if let Type::Nominal(n) = m.object.type_().as_ref()
+        && n.module_reference == ModuleReference::ROOT
+      {
+        cx.error_set.report_builtin_member_as_value_error(m.method_name.loc, m.method_name.name);
+      }
+      replace_undecided_tparam_with_unknown_and_update_type(
+        cx,
+        expr::E::MethodAccess(m),
+        unresolved_type_parameters,
+      )
+    }
   }
 }
 
